@@ -4,8 +4,8 @@
 (*            byte sizes are LevelBytes(enc, alpha, Dim(i)) for the non-JPEG encodings              *)
 (*   Encode   accepted; BLP0: one external file per level with those sizes                          *)
 (*   Header   width / height as given; exactly the first MipCount locator sizes are non-zero and     *)
-(*            equal LevelBytes; every range starts behind the header, ends inside the file, and      *)
-(*            ranges are pairwise disjoint                                                          *)
+(*            equal LevelBytes; every range starts behind header + palette / JPEG header, ends inside *)
+(*            the file, and ranges are pairwise disjoint                                            *)
 (*   Parse    accepted; structure token equals the token of the encoded structure                   *)
 (*   Decode   raw BGRA: decoded level 0 = source pixels; palettised: every colour is a palette      *)
 (*            entry and every (source alpha, decoded alpha) pair satisfies QuantOk(bits)            *)
@@ -33,10 +33,13 @@ EncodeP(e) == IF e.res # "ok" THEN <<FALSE, "encode-rejected">>
               ELSE <<SizesOk(e.ext), "level-size">>
 HeaderP(e) == IF e.w # tcase.w \/ e.h # tcase.h THEN <<FALSE, "header-dims">>
               ELSE IF tcase.ver = "Blp0" THEN <<TRUE, "">>
-              ELSE IF ~(\A ti \in 1..16 : (e.sizes[ti] # 0) <=> (ti <= N)) THEN <<FALSE, "mip-chain">>
-              ELSE IF ~SizesOk(Prefix(e.sizes, N)) THEN <<FALSE, "level-size">>
-              ELSE <<  /\ InFile(Prefix(e.offs, N), Prefix(e.sizes, N), HeaderSize(tcase.ver), tenc.len)
-                       /\ Disjoint(Prefix(e.offs, N), Prefix(e.sizes, N)), "range">>
+              ELSE LET tk == NonZeroCount(e.sizes) IN
+                   \* the ranges that ARE stored must be sound whatever their number
+                   IF ~(\A ti \in 1..16 : (e.sizes[ti] # 0) <=> (ti <= tk)) THEN <<FALSE, "locator-gap">>
+                   ELSE IF ~(/\ InFile(Prefix(e.offs, tk), Prefix(e.sizes, tk), IF e.jh < 0 THEN HeaderSize(tcase.ver) ELSE DataStart(tcase.ver, tcase.enc, e.jh + 2), tenc.len)
+                             /\ Disjoint(Prefix(e.offs, tk), Prefix(e.sizes, tk))) THEN <<FALSE, "range">>
+                   ELSE IF tk # N THEN <<FALSE, "mip-chain">>
+                   ELSE <<SizesOk(Prefix(e.sizes, N)), "level-size">>
 ParseP(e) == IF e.res # "ok" THEN <<FALSE, "parse-failed">> ELSE <<e.stok = tconv.stok, "structure">>
 DecodeP(e) == IF e.res # "ok" THEN <<FALSE, "decode-failed">>
               ELSE IF e.dw # tcase.w \/ e.dh # tcase.h THEN <<FALSE, "decode-dims">>
